@@ -61,6 +61,11 @@ def scenarios(tier):
                  max_states=cap, note="relative positioning and inch units: depth-bounded (rounding makes states "
                                       "path-dependent)"),
     ]
+    out.append(Scenario("c01-arc-retracted", World, dict(base, regions=["R"], emax=1),
+                        [("TRAVEL", "O1"), ("TRAVEL", "O2"), ("TRAVEL", "I1"), ("PRINT", "O1"), ("ARC", "cross"), ("ARC", "under"),
+                         ("ARC", "cross", "E"), ("ARC", "into"), ("RETRACT",), ("RECOVER",)],
+                        max_states=cap, note="arcs issued while the filament is retracted, or while a recovery skipped "
+                                             "inside a region is still owed"))
     out.append(Scenario("c01-relarc", World, dict(base, regions=["R"], relarcs=True, monitors=("c01", "c03")),
                         [("REL",), ("ABS",), ("ARC", "clear"), ("ARC", "under"), ("TRAVEL", "O1"), ("TRAVEL", "I1"),
                          ("TRAVEL", "O2"), ("XONLY", "I1")], max_depth=5, max_states=cap, finding="D14",
